@@ -1,7 +1,7 @@
 import JunoModel.C09.ProofsHist
 /-!
 C09 — REGRESSION DOCUMENTATION, not obligations about the tree: theorems about the variants of the
-model that describe juno BEFORE the three round-1 repairs (`fix… = false`). They are kept so that
+model that describe juno BEFORE the repairs 6609698 / 84d7a3b / 702b167 / c8ac4a7 (`fix… = false`). They are kept so that
 the defects stay reproducible at window size 3 (the harness replays the same histories at 8192
 against the real code every run and reports the old signature again should a defect return).
 This module is built and axiom-free like the others but is not part of `props_modules`.
@@ -22,13 +22,13 @@ which each revert happens in a state where (a) the cache holds no entry for a wi
 re-opens, (b) there is no persisted snapshot at or above the reverted block, (c) the revert does not
 re-open a completed window; in particular along every reorg-free history (`histOK_of_no_revert`). -/
 theorem index_no_false_neg_before_repairs (W cap : Nat) (hW : 1 ≤ W) (ops : List Op)
-    (hok : HistOK ⟨W, cap, false, false, false⟩ Node.init ops)
-    (hne : (run ⟨W, cap, false, false, false⟩ Node.init ops).chain ≠ [])
-    (hlive : (run ⟨W, cap, false, false, false⟩ Node.init ops).initErr = none) :
-    NoFalseNeg ⟨W, cap, false, false, false⟩ (run ⟨W, cap, false, false, false⟩ Node.init ops) :=
+    (hok : HistOK ⟨W, cap, false, false, false, false⟩ Node.init ops)
+    (hne : (run ⟨W, cap, false, false, false, false⟩ Node.init ops).chain ≠ [])
+    (hlive : (run ⟨W, cap, false, false, false, false⟩ Node.init ops).initErr = none) :
+    NoFalseNeg ⟨W, cap, false, false, false, false⟩ (run ⟨W, cap, false, false, false, false⟩ Node.init ops) :=
   index_no_false_neg_guarded _ hW ops hok hne hlive
 
-def cfgBefore : Cfg := ⟨3, 2, false, false, false⟩
+def cfgBefore : Cfg := ⟨3, 2, false, false, false, false⟩
 def blkE : Block := ⟨[], []⟩
 def blkB : Block := ⟨[[⟨11, [7]⟩]], [.addr 11, .key 0 7]⟩
 def fB : Filter := ⟨[11], []⟩
@@ -40,7 +40,7 @@ theorem false_negative_stale_cache_before_6609698 :
     let ops : List Op := [.store blkE, .store blkE, .store blkE, .store blkE, .query fB 0 3 none 5 0,
       .revert, .revert, .store blkB, .store blkE]
     storesOKb cfgBefore Node.init ops = true ∧
-    (query cfgBefore (run cfgBefore Node.init ops) fB 0 3 none 5 0).2 = .ok [] Token.none ∧
+    (apiEvents cfgBefore (run cfgBefore Node.init ops) fB 0 3 none 5 0).2 = .ok [] Token.none ∧
     naive fB (run cfgBefore Node.init ops).chain 0 3 = [⟨2, 0, 0, ⟨11, [7]⟩⟩] := by
   decide
 
@@ -48,7 +48,7 @@ theorem false_negative_stale_cache_before_6609698 :
 theorem false_negative_stale_snapshot_before_84d7a3b :
     let ops : List Op := [.store blkE, .store blkE, .snap, .restart, .revert, .store blkB, .restart]
     storesOKb cfgBefore Node.init ops = true ∧
-    (query cfgBefore (run cfgBefore Node.init ops) fB 0 1 none 5 0).2 = .ok [] Token.none ∧
+    (apiEvents cfgBefore (run cfgBefore Node.init ops) fB 0 1 none 5 0).2 = .ok [] Token.none ∧
     naive fB (run cfgBefore Node.init ops).chain 0 1 = [⟨1, 0, 0, ⟨11, [7]⟩⟩] := by
   decide
 
@@ -58,9 +58,25 @@ theorem false_negative_stale_persisted_before_702b167 :
     let ops : List Op := [.store blkE, .store blkE, .store blkE, .store blkE, .revert, .revert, .revert,
       .store blkB, .restart]
     storesOKb cfgBefore Node.init ops = true ∧
-    (query cfgBefore (run cfgBefore Node.init ops) fB 0 1 none 5 0).2 = .ok [] Token.none ∧
+    (apiEvents cfgBefore (run cfgBefore Node.init ops) fB 0 1 none 5 0).2 = .ok [] Token.none ∧
     naive fB (run cfgBefore Node.init ops).chain 0 1 = [⟨1, 0, 0, ⟨11, [7]⟩⟩] ∧
-    (store cfgBefore (run cfgBefore Node.init ops) blkE).2 = some .range := by
+    (apiStore cfgBefore (run cfgBefore Node.init ops) blkE).2 = some .range := by
+  decide
+
+/-- C05's L16 seen from the query side, repaired by c8ac4a7 — `ensureInit` remembered a failed
+initialisation (`sync.Once`): two blocks, a restart whose initialisation hits a transient error; the
+database is intact and holds a matching event, yet the query failed, and failed again; only a Store
+attempt (which itself failed once: `Reset`, 3373c0b) re-armed the initialiser. -/
+theorem query_fails_after_transient_init_error_before_c8ac4a7 :
+    let cfg : Cfg := ⟨3, 2, true, true, true, false⟩
+    let ops : List Op := [.store blkE, .store blkB, .restartFault]
+    let n := run cfg Node.init ops
+    storesOKb cfg Node.init ops = true ∧
+    naive fB n.chain 0 1 = [⟨1, 0, 0, ⟨11, [7]⟩⟩] ∧
+    (apiEvents cfg n fB 0 1 none 5 0).2 = .err .io ∧
+    (apiEvents cfg (apiEvents cfg n fB 0 1 none 5 0).1 fB 0 1 none 5 0).2 = .err .io ∧
+    (apiStore cfg n blkE).2 = some .io ∧
+    (apiEvents cfg (apiStore cfg n blkE).1 fB 0 1 none 5 0).2 = .ok [⟨1, 0, 0, ⟨11, [7]⟩⟩] Token.none := by
   decide
 
 end Juno.C09.Regression
